@@ -59,6 +59,11 @@ FRAGMENTS = {
     "strikethrough": (["some ~~gone~~ text"], ["myst.strikethrough"], True),
     "attribute": (["![alt](b.png){h=notalength}"], ["myst.attribute"], True),
     "substitution": (["value {{ undefinedvariable }} here"], ["myst.substitution"], True),
+    "heading_strike": (["## Head ~~gone~~ tail"], ["myst.strikethrough"], True),
+    "heading_nested_role": (["## Head **bold {nosuchrole}`x` text** tail"], ["myst.role_unknown"], True),
+    "heading_nested_sub": (["### Head *em [link {{ undefinedvariable }}](https://e.org) em* tail"], ["myst.substitution"], True),
+    "heading_nested_strike": (["## Head [text **~~gone~~**](https://e.org)"], ["myst.strikethrough"], True),
+    "xref_missing_empty": (["see [](#nosuchtarget) and <project:#nosuchtarget2> here"], ["myst.xref_missing", "myst.xref_missing"], True),
     "footnote_unreferenced": (["[^unref]: never referenced"], ["ref.footnote"], True),
     "footnote_duplicate": (["[^fdup]: one", "", "[^fdup]: two", "", "uses [^fdup]"], ["ref.footnote"], True),
 }
@@ -271,7 +276,13 @@ def check_case(acc, case, project=None) -> list[dict]:
     b = d1.pformat()
     if a != b:
         i = next((j for j in range(min(len(a), len(b))) if a[j] != b[j]), min(len(a), len(b)))
-        vs.append(mk(f"C14:suppression-changes-doctree:{frontend}", case, a[max(0, i - 200):i + 300], b[max(0, i - 200):i + 300]))
+        sig = f"C14:suppression-changes-doctree:{frontend}"
+        if frontend == "docutils" and any(it["frag"] == "xref_missing_empty" for it in case["items"]) and matches(("myst", "xref_missing"), S):
+            # recorded finding: is the only difference the '#target' text of the text-less missing links?
+            a2 = re.sub(r"\n\s*<inline classes=\"std std-ref\">\n\s*#nosuchtarget2?", "", b)
+            if a2 == a:
+                sig = "C14:suppression-changes-doctree:text-less-missing-xref"
+        vs.append(mk(sig, case, a[max(0, i - 200):i + 300], b[max(0, i - 200):i + 300]))
     if acc is not None:
         n_match = sum(1 for t in tags0 if matches(t, S))
         n_tagged = sum(1 for t in tags0 if t)
